@@ -209,6 +209,38 @@ mod tests {
         assert_eq!(crc8(b"123456789"), 0xF4);
     }
     #[test]
+    fn reference_decoder_on_frames_from_the_repository_tests() {
+        // spdm_messages::test_decode_request_one / two
+        let a = [0x44, 0x0f, 0x0a, 0x69, 0x01, 0x22, 0x34, 0xc8, 0x05, 0x10, 0x84, 0x00, 0x00, 0x9c];
+        assert_eq!(ref_decode(&a), RefVerdict::Accept { mtype: T_SPDM, start: 9, end: 13 });
+        let b = [0x68, 0x0f, 0x0e, 0x45, 0x01, 0x34, 0x22, 0xc8, 0x05, 0x10, 0x04, 0x00, 0x00, 0x00, 0x01, 0x00, 0x12, 0x97];
+        assert_eq!(ref_decode(&b), RefVerdict::Accept { mtype: T_SPDM, start: 9, end: 17 });
+        // one flipped bit: rejected for the PEC and nothing else
+        let mut c = a;
+        c[10] ^= 0x04;
+        assert_eq!(ref_decode(&c), RefVerdict::Reject { bad_header: false, bad_pec: true, cc: None, bad_len: false });
+        // too short to hold the headers
+        assert_eq!(ref_decode(&a[..9]), RefVerdict::Short);
+    }
+    #[test]
+    fn reference_decoder_control_rules() {
+        // Set Endpoint ID request, 2 data bytes: accepted; with 3 data bytes: bad length
+        let mk = |body: &[u8]| Forge { dest: 0x23, src: 0x34, cmd_code: 0x0F, byte_count_delta: 0, b4: 0x01, dest_eid: 0x23, src_eid: 0x34, flags: 0xC8, b8: 0x00, body: body.to_vec(), good_pec: true }.bytes();
+        let ok = mk(&[0x80, 0x01, 0x00, 0x56]);
+        assert_eq!(ref_decode(&ok), RefVerdict::Accept { mtype: T_CONTROL, start: 11, end: 13 });
+        let long = mk(&[0x80, 0x01, 0x00, 0x56, 0x00]);
+        assert_eq!(ref_decode(&long), RefVerdict::Reject { bad_header: false, bad_pec: false, cc: None, bad_len: true });
+        // response with completion code 2
+        let resp = mk(&[0x00, 0x01, 0x02, 0x00, 0x00, 0x00]);
+        assert_eq!(ref_decode(&resp), RefVerdict::Reject { bad_header: false, bad_pec: false, cc: Some(2), bad_len: false });
+        // version 2 in the transport header
+        let mut v = Forge { dest: 0x23, src: 0x34, cmd_code: 0x0F, byte_count_delta: 0, b4: 0x02, dest_eid: 0x23, src_eid: 0x34, flags: 0xC8, b8: 0x7E, body: vec![1, 2, 3], good_pec: true }.bytes();
+        assert!(matches!(ref_decode(&v), RefVerdict::Reject { bad_header: true, .. }));
+        v[4] = 0x01;
+        fix_pec(&mut v);
+        assert_eq!(ref_decode(&v), RefVerdict::Accept { mtype: T_PCI, start: 9, end: 12 });
+    }
+    #[test]
     fn forge_matches_known_frame() {
         let f = Forge { dest: 0x22, src: 0x34, cmd_code: 0x0F, byte_count_delta: 0, b4: 0x01, dest_eid: 0x22, src_eid: 0x34, flags: 0xC8, b8: 0x05, body: vec![0x10, 0x84, 0x00, 0x00], good_pec: true };
         assert_eq!(f.bytes(), vec![0x44, 0x0f, 0x0a, 0x69, 0x01, 0x22, 0x34, 0xc8, 0x05, 0x10, 0x84, 0x00, 0x00, 0x9c]);
